@@ -311,7 +311,9 @@ class State:
         try:
             self.assume(goal)
         except PathEnd:
-            raise PathEnd('obligation %s is false on this path' % name)
+            # certainly false here: it is recorded (and will be refuted); the path goes on WITHOUT assuming it, so that the
+            # obligations that follow - possibly serving other properties - are still generated for this path
+            return
         for f in self.pc[n1:] + self.hyps[n2:]:
             self.goal_ids.add(f.get_id())
 
@@ -905,6 +907,8 @@ class Interp:
                 return raw
             return BoundMethod(recv, raw, name)
         if type(raw).__name__ == 'member_descriptor':      # __slots__ entry not yet assigned
+            if recv is not None and _assigned_on_self(cls, name):
+                raise Unsupported('%s.%s: a slot the code assigns but the contracts\' world model does not describe' % (classname(cls), name))
             raise PyRaise(ExcVal(AttributeError, tag='unset-slot.' + name))
         return self.conv(raw)
 
@@ -1468,7 +1472,7 @@ def spec_matches(exc, spec_cls):
     """does a `raises` clause of a CONTRACT admit this exception?  Like exc_matches, except that a catch-all clause
     (Exception / BaseException: "may fail for reasons of the environment") never admits the exceptions CPython raises
     for a fault of the function's own code - an unbound local or name"""
-    if exc.cls is not None and issubclass(exc.cls, NameError) and spec_cls in (Exception, BaseException):
+    if exc.cls is not None and issubclass(exc.cls, (NameError, AttributeError)) and spec_cls in (Exception, BaseException):
         return False
     return exc_matches(exc, spec_cls)
 
